@@ -34,6 +34,47 @@ type faultLSP struct {
 	fail  map[string]int
 	fired []string
 	calls []string
+	// hold: the named call blocks (before reaching the store) until released; reached is closed when it arrives there
+	holdCall string
+	reached  chan struct{}
+	release  chan struct{}
+}
+
+// armHold makes the next call of the given kind wait inside the wrapper until the returned release function is called.
+func (f *faultLSP) armHold(call string) (<-chan struct{}, func()) {
+	f.mu.Lock()
+	defer f.mu.Unlock()
+	f.holdCall = call
+	f.reached = make(chan struct{})
+	f.release = make(chan struct{})
+	rel := f.release
+	var once sync.Once
+	return f.reached, func() { once.Do(func() { close(rel) }) }
+}
+
+func (f *faultLSP) maybeHold(call string) {
+	f.mu.Lock()
+	if f.holdCall != call {
+		f.mu.Unlock()
+		return
+	}
+	f.holdCall = ""
+	reached, release := f.reached, f.release
+	f.mu.Unlock()
+	close(reached)
+	<-release
+}
+
+// sawAfter reports whether a call of the given kind was recorded (calls are recorded when they arrive at the wrapper).
+func (f *faultLSP) saw(call string) bool {
+	f.mu.Lock()
+	defer f.mu.Unlock()
+	for _, c := range f.calls {
+		if c == call {
+			return true
+		}
+	}
+	return false
 }
 
 func newFaultLSP(inner persistence.LogStatePersistence) *faultLSP {
@@ -87,6 +128,7 @@ func (f *faultLSP) ReadOps(id string) (persistence.LogStateReadOps, error) {
 }
 
 func (f *faultLSP) WriteOps(id string) (persistence.LogStateWriteOps, error) {
+	f.maybeHold("WriteOps")
 	if f.hit("WriteOps") {
 		return nil, errInjected
 	}
@@ -122,6 +164,7 @@ func (f *faultLSP) readErr() error {
 }
 
 func (w *faultWrite) GetLatest() ([]byte, error) {
+	w.f.maybeHold("GetLatest")
 	if w.f.hit("GetLatest") {
 		return nil, w.f.readErr()
 	}
@@ -129,6 +172,7 @@ func (w *faultWrite) GetLatest() ([]byte, error) {
 }
 
 func (w *faultWrite) Set(c []byte) error {
+	w.f.maybeHold("Set")
 	if w.f.hit("Set") {
 		return errInjected
 	}
